@@ -50,6 +50,10 @@ CHECKS = {
    text="spec/Dispose.tla models any number of Dispose/DisposeForce/context attempts racing through the stages of doDispose (SingleWinner, DisposeHandlersOnce, AllWaitersReleased, Completes under fairness). On the real machine disposal is landed on an idle machine, a short and a long running queue, inside a negotiation handler, a final handler, Eval, and from inside a handler, by Dispose, DisposeForce, parent-context cancel, two Disposes and Dispose+DisposeForce, with and without handlers and with one outstanding waiter of every kind; the dd.* stage hooks are validated against the spec and the end state is judged: every waiter released, contexts cancelled, dispose handlers exactly once, handler loop exited, callers neither panicked nor blocked, ~75 later API calls return promptly with a neutral value.",
    note="Landing points are reached by blocking handlers / timing, not by gates inside doDispose; DisposeForce is documented to cause panics in concurrent callers (not counted). Trusted base: TLC, the dd.* and hl.exit hooks.",
    technique="TLA+ spec of the disposal stages + TLC; disposal scenarios on the real code; trace validation of stage hooks and end state"),
+ "C16": dict(level="model_checking", design_ref="DESIGN.md §4 C16", engine="debugger",
+   text="TLC exhaustively checks, on bounded models, that the transcription of hParseMsg / GetTransitionStates equals the derivation from consecutive records, that the transcribed binary searches (TxAtQueueTick, TxAtMachTime, TxIndex, HadErrSinceTx ...) equal linear scans on monotone input, and that the cursor / filter machine (Fwd, Back, ScrollToTx, ToggleTool, tail mode, ingestion) satisfies FilterSound, FwdBackIdentity and NoPanic from every reachable cursor position. A real headless am-dbg (tcell simulation screen) is driven with real telemetry from generated machines (directly and over loopback TCP, several clients), with TLC-generated command behaviours and with function-level look-ups; every logged value is validated by TLC: formulas (RecordFaithful, DerivedConsistent, LookupEqualsScan, FwdBackIdentity, FilterSound, ExportImportIdentity, NoPanic) for the verdict and the spec's own step for drift.",
+   note="Exhaustive only within the constants (<= 6 records over 2-3 states; <= 4 records x <= 4 commands); end-to-end streams are seeded samples (exploration level); message GC, state groups, log/reader views and UI rendering are not covered; FilterSound is required when the debugger selects a transition, FwdBackIdentity for Fwd(1) that moved then Back(1). Trusted base: TLC, the headless debugger construction, tools/debugger verif_on.go.",
+   technique="TLA+/TLC model checking + function-level conformance + trace validation of a headless debugger + model-based replay"),
  "C17": dict(level="model_checking", design_ref="DESIGN.md §4 C17", engine="history",
    text="TLC exhaustively explores spec/MCHistory.tla (every list / TrackRejected / tracked / Max / batch configuration of a 2-state space, every history of <= 4-6 abstract transitions incl. rejected and check ones, Sync, Export/Import, the lagging Saved counter and both GC/write orders) with OneRecordPerMatch, Bounded, KeepsNewest, QueryExact, NewestFirst, ImportRestores as invariants. The same formulas plus BackendsAgree and Durable are evaluated by TLC (spec/TraceHistory.tla) on what real memory / bbolt (thorough: + badger, gorm/sqlite, a crash point after every Sync) memories stored and answered for generated workloads and ~60 generated queries per case (all 16 presence combinations of the four state conditions x time kinds, the *Between helpers).",
    note="Exhaustive only within the MC constants. Stores are scanned directly after observed write quiescence; human time is expressed as mutation indexes; a crash point is a file copy after Sync's writes completed; where the property admits several readings a violation needs all of them contradicted. frostdb is out of scope. Trusted base: TLC, the Go toolchain, the harness.",
@@ -98,7 +102,8 @@ def main():
                    source_commits=[l.strip() for l in open(os.path.join(ROOT, "hooks_commits.txt")) if l.strip()]
                    if os.path.exists(os.path.join(ROOT, "hooks_commits.txt")) else [],
                    add_only=True),
-        engines=[dict(name="rpcsync", path="spec/RpcSync*.tla spec/MCRpcSync*.tla spec/TraceRpcSync.tla harness/rpcdrv tools/rpcsynccheck.py", serves_properties=["C09"], kind_free_text="TLA+ protocol model; forced schedules over an in-memory link; trace validation"),
+        engines=[dict(name="debugger", path="spec/Debugger.tla spec/MCDebugger.tla spec/TraceDebugger.tla harness/dbgdrv tools/debuggercheck.py", serves_properties=["C16"], kind_free_text="TLA+ model of am-dbg's record derivation, look-ups and cursor/filter machine; headless debugger driven and validated"),
+                 dict(name="rpcsync", path="spec/RpcSync*.tla spec/MCRpcSync*.tla spec/TraceRpcSync.tla harness/rpcdrv tools/rpcsynccheck.py", serves_properties=["C09"], kind_free_text="TLA+ protocol model; forced schedules over an in-memory link; trace validation"),
                  dict(name="rpcdiff", path="spec/RpcDiff.tla spec/MCRpcDiff.tla spec/TraceRpcDiff.tla harness/rpcdiff tools/rpcdiffcheck.py", serves_properties=["C10"], kind_free_text="TLA+ transcription of the clock-diff codec; function-level conformance"),
                  dict(name="history", path="spec/History.tla spec/MCHistory.tla spec/TraceHistory.tla harness/histdrv tools/historycheck.py", serves_properties=["C17"], kind_free_text="TLA+ model of the history log and queries; four real backends validated against it"),
                  dict(name="pipes", path="spec/Pipes.tla spec/MCPipes.tla spec/TracePipes.tla harness/pipesdrv tools/pipescheck.py", serves_properties=["C18"], kind_free_text="TLA+ model of pipe forwarding; delivery orders forced through a gated target proxy"),
